@@ -123,6 +123,12 @@ func nonNeg1(v ssa.Value, depth int, inProgress map[*ssa.Phi]bool) bool {
 		return k >= 0
 	}
 	switch x := v.(type) {
+	case *ssa.UnOp:
+		// exception (one symbol): pbcmpl.fixedSize = binary.Size(&header{}) = 32, written in package initialisation only
+		// (R-LAYOUT and R-SAMECONST of C06 decide both facts)
+		if x.Op == token.MUL && isGlobal(x.X, "pbcmpl", "fixedSize") {
+			return true
+		}
 	case *ssa.Call:
 		if b, ok := x.Common().Value.(*ssa.Builtin); ok {
 			switch b.Name() {
@@ -269,7 +275,23 @@ func upperBound(v ssa.Value, depth int) (int64, bool) {
 	if k, ok := constInt64(v); ok {
 		return k, true
 	}
-	if _, j, ok := asLowMask(v); ok && j < 62 {
+	if x, j, ok := asLowMask(v); ok && j < 62 {
+		// a word that only ever holds a constant moved by shifts has its set bits as far apart as the constant has:
+		// with gaps of at least j, a window of j bits sees at most one of them (pair<<h>>k & 15 is 0, 1, 2, 4 or 8)
+		if c, isChain := shiftChainConst(x, 0, map[ssa.Value]bool{}); isChain && c != 0 && j >= 1 {
+			gap, last := 64, -1
+			for b := 0; b < 64; b++ {
+				if c>>uint(b)&1 == 1 {
+					if last >= 0 && b-last < gap {
+						gap = b - last
+					}
+					last = b
+				}
+			}
+			if gap >= j {
+				return int64(1) << uint(j-1), true
+			}
+		}
 		return int64(1)<<uint(j) - 1, true
 	}
 	switch x := v.(type) {
@@ -745,4 +767,41 @@ func ReportMul32(w *World, r *Report, names ...string) {
 		})
 		r.Check(bad == "", "R-MUL32", n, w.Pos(fn.Pos()), bad, fmt.Sprintf("%d products of two run-time values in a type of at most 32 bits (or platform width)", nmul))
 	}
+}
+
+// shiftChainConst: v is one constant moved around by shifts only (through merges and loops): returns that constant.
+func shiftChainConst(v ssa.Value, depth int, seen map[ssa.Value]bool) (uint64, bool) {
+	v = stripConv(v)
+	if depth > 12 {
+		return 0, false
+	}
+	if c, ok := constUint64(v); ok {
+		return c, true
+	}
+	if seen[v] {
+		return 0, true // a cycle adds nothing new
+	}
+	seen[v] = true
+	switch x := v.(type) {
+	case *ssa.BinOp:
+		if x.Op == token.SHL || x.Op == token.SHR {
+			return shiftChainConst(x.X, depth+1, seen)
+		}
+	case *ssa.Phi:
+		var c uint64
+		for _, e := range x.Edges {
+			k, ok := shiftChainConst(e, depth+1, seen)
+			if !ok {
+				return 0, false
+			}
+			if k != 0 {
+				if c != 0 && c != k {
+					return 0, false
+				}
+				c = k
+			}
+		}
+		return c, true
+	}
+	return 0, false
 }
